@@ -64,7 +64,8 @@ type Val struct {
 }
 
 type State struct {
-	lazyAlloc string    // non-empty: an allocating call happened; heaps first touched later get a fresh version framed below this bound
+	lazyAll   bool            // a callee that may allocate objects of any type was called: heaps first touched later get a fresh version framed below alloc_init
+	lazySet   map[string]bool // the same for callees with a typed allocates clause: only these heaps
 	sym       *symHeaps // non-nil: heaps are bound variables (definition of a recursive spec function)
 	cells     map[*cellKey]string
 	heaps     map[string]string
@@ -76,7 +77,13 @@ type State struct {
 
 func (s *State) clone() *State {
 	n := &State{cells: make(map[*cellKey]string, len(s.cells)), heaps: make(map[string]string, len(s.heaps)),
-		globals: make(map[*ssa.Global]string, len(s.globals)), alloc: s.alloc, pc: s.pc, held: map[string]int{}, lazyAlloc: s.lazyAlloc, sym: s.sym}
+		globals: make(map[*ssa.Global]string, len(s.globals)), alloc: s.alloc, pc: s.pc, held: map[string]int{}, lazyAll: s.lazyAll, sym: s.sym}
+	if len(s.lazySet) > 0 {
+		n.lazySet = make(map[string]bool, len(s.lazySet))
+		for k := range s.lazySet {
+			n.lazySet[k] = true
+		}
+	}
 	for k, v := range s.cells {
 		n.cells[k] = v
 	}
@@ -103,6 +110,8 @@ type Unit struct {
 	topBinds     []Val
 	curFrame     *Frame
 	copyRefs     map[string]string // objects modelling read-only copies of embedded arrays
+	calleeAllocAny   bool            // some callee may allocate objects of any type
+	calleeAllocNames map[string]bool // heaps in which callees with a typed allocates clause may allocate
 	cellN        int
 	obSeen       map[string]int
 	entry        *State
@@ -230,10 +239,12 @@ func (u *Unit) heapGet(st *State, name string, t types.Type) string {
 		return v
 	}
 	v := u.heapInit(name, t)
-	if st.lazyAlloc != "" && !strings.HasPrefix(name, "M_") && !strings.HasPrefix(name, "VM_") {
+	if (st.lazyAll || st.lazySet[name]) && !strings.HasPrefix(name, "M_") && !strings.HasPrefix(name, "VM_") {
 		// objects allocated by callees since function entry are not described by the initial heap
+		// (a heap that was never touched holds no object this unit allocated itself: every object it
+		// knows of existed at entry)
 		h1 := u.em.fresh(name, u.heapSortU(name, t))
-		u.em.assert(fmt.Sprintf("(forall ((r Int)) (! (=> (<= r %s) (= (select %s r) (select %s r))) :pattern ((select %s r))))", st.lazyAlloc, h1, v, h1))
+		u.em.assert(fmt.Sprintf("(forall ((r Int)) (! (=> (<= r %s) (= (select %s r) (select %s r))) :pattern ((select %s r))))", "alloc_init", h1, v, h1))
 		if ax := u.heapAxiom(name, h1, t, st.alloc); ax != "" {
 			u.em.assert(ax)
 		}
@@ -920,6 +931,18 @@ func (u *Unit) merge(ins []edgeState) *State {
 			u.em.assert(implies(e.guard, fmt.Sprintf("(= %s %s)", n, u.globalGet(e.st, g))))
 		}
 		out.globals[g] = n
+	}
+	// callees that allocate: heaps first touched after the merge
+	for _, e := range ins[1:] {
+		if e.st.lazyAll {
+			out.lazyAll = true
+		}
+		for k := range e.st.lazySet {
+			if out.lazySet == nil {
+				out.lazySet = map[string]bool{}
+			}
+			out.lazySet[k] = true
+		}
 	}
 	// alloc
 	same := true
